@@ -171,6 +171,17 @@ def _run(V, work, tier):
         hist = hist[:len(A)] + rnd.sample(hist[len(A):], 700)
     for _ in range(6000 if thorough else 900):
         hist.append([rnd.choice(A) for _ in range(rnd.randrange(4, 10))])
+    # a package whose CREATION ends in an error (a docstring argument that is not a string): it exists, is current and
+    # starts with the language package's exports all the same - entering it again later finds it usable
+    guard = lambda e: [S("handler-bind"), [[S("condition"), [S("lambda"), [S("c"), S("&rest"), S("r")], [S("probe"), Q(S("err")), S("c")], Q(S("e"))]]], e]
+    for np in ("fresh", "p1"):
+        for badargs in ([42], [Q([1])], [STR("doc"), 7], [S(":k")]):
+            for via_load in (False, True):
+                create = [S("in-package"), Q(S(np))] + badargs
+                h = [guard([S("load-string"), SRC([create, [S("probe"), Q(S("not-reached"))]])]) if via_load else guard(create), [S("probe"), Q(S("after-failed-creation"))],
+                     [S("in-package"), Q(S(np))], guard([S("set"), Q(S("z")), [S("+"), 1, 2]]), guard([S("probe"), Q(S("z")), S("z")]), guard([S("defun"), S("k"), [], Q(S("k1"))]),
+                     [S("export"), Q(S("k"))], [S("in-package"), Q(S("user"))], guard([S("probe"), Q(S("k")), [S("%s:k" % np)]]), guard([S("use-package"), Q(S(np))]), guard([S("probe"), Q(S("k2")), [S("k")]])]
+                hist.append(h)
     sc = scenarios()
     hist += sc if thorough else rnd.sample(sc[:-18], 90) + sc[-18:]      # the 18 cross-package failure scenarios always run
     # the MIX family (gen/mix.py): a library package with exported and hidden bindings, cross-package calls, callbacks handed
